@@ -97,7 +97,9 @@ macro_rules! fp_suite {
                 let opn = ["add", "sub", "mul"][rng.gen_range(0..3)];
                 let form = FORMS[rng.gen_range(0..6)];
                 out.call(&format!("f.{}", opn), json!({"F": $fstr, "form": form, "a": b(&sa), "b": b(&sb)}), || {
-                    outs! {"out" => b(&$binop(opn, form, fa, fb).to_slice())}
+                    let r = $binop(opn, form, fa, fb);
+                    // the result must also BEHAVE like the value it encodes: zero test, and == with the value rebuilt from its bytes
+                    outs! {"out" => b(&r.to_slice()), "outz" => Value::Bool(r.is_zero()), "outeq" => Value::Bool(Some(r) == <$t>::from_slice(&r.to_slice()))}
                 });
                 match k % 8 {
                     0 => {
@@ -180,12 +182,39 @@ pub fn run_fq2(a: &Args, out: &mut Out) {
     let mut k = 0u64;
     while !out.full() {
         k += 1;
-        let (x, y) = (fq2_of(&comp(&mut rng), &comp(&mut rng)), fq2_of(&comp(&mut rng), &comp(&mut rng)));
+        let (mut x, mut y) = (fq2_of(&comp(&mut rng), &comp(&mut rng)), fq2_of(&comp(&mut rng), &comp(&mut rng)));
+        if k % 9 >= 4 && k % 3 == 0 && !pool.hi.is_empty() {
+            // carry classes of the interleaved sum of products: every Montgomery residue entering one coefficient just below q
+            // (imaginary part: a0, a1, b0, b1 high; real part: a0, b0, b1 high and a1 small so that -2*a1 is high)
+            let hi = |rng: &mut rand::rngs::StdRng| pool.hi[rng.gen_range(0..pool.hi.len())].clone();
+            let lo = |rng: &mut rand::rngs::StdRng| pool.lo[rng.gen_range(0..pool.lo.len())].clone();
+            let a1 = if rng.gen() { hi(&mut rng) } else { lo(&mut rng) };
+            x = fq2_of(&hi(&mut rng), &a1);
+            y = fq2_of(&hi(&mut rng), &hi(&mut rng));
+        }
+        // products with a vanishing coefficient although every contribution is non-zero (the interleaved sum of products
+        // then ends exactly on a multiple of q): z * conj(z), a*d + b*c = 0, a*c - 2*b*d = 0
+        let y = match k % 9 {
+            0 => Fq2::new(x.real(), -x.imaginary()),
+            1 => Fq2::new(x.real(), -x.imaginary()) * Fq2::new(y.real(), Fq::zero()),
+            2 if !x.real().is_zero() => {
+                // imaginary part of x*y vanishes: d = -b*c/a
+                let c = y.real();
+                Fq2::new(c, -(x.imaginary() * c) * x.real().inverse().unwrap())
+            }
+            3 if !x.imaginary().is_zero() => {
+                // real part of x*y vanishes: d = a*c/(2b)
+                let c = y.real();
+                Fq2::new(c, x.real() * c * (x.imaginary() + x.imaginary()).inverse().unwrap())
+            }
+            _ => y,
+        };
         let (sx, sy) = (x.to_slice(), y.to_slice());
-        let opn = ["add", "sub", "mul", "mul"][rng.gen_range(0..4)];
+        let opn = if k % 9 < 4 || k % 3 == 0 { "mul" } else { ["add", "sub", "mul", "mul"][rng.gen_range(0..4)] };
         let form = FORMS[rng.gen_range(0..6)];
         out.call(&format!("f2.{}", opn), json!({"form": form, "a": b(&sx), "b": b(&sy)}), || {
-            outs! {"out" => b(&fq2_binop(opn, form, x, y).to_slice())}
+            let r = fq2_binop(opn, form, x, y);
+            outs! {"out" => b(&r.to_slice()), "outz" => Value::Bool(r.is_zero()), "outeq" => Value::Bool(Some(r) == Fq2::from_slice(&r.to_slice()))}
         });
         match k % 8 {
             0 => {
